@@ -41,5 +41,5 @@ FUNCTIONS = ['uxarray.grid.grid.Grid.face_areas',
 STANDINS = ["histories"]
 ASSUMPTIONS = []
 EXPLANATION = ""
-LEVEL_TEXT = 'history contracts proved for face_areas, face_jacobian, get_ball_tree, get_kd_tree, to_linecollection, to_polycollection: from every admissible cache state the call returns what a fresh grid returns for the same arguments and re-establishes the cache invariant; all other operations: bounded operation-sequence sweep (93-operation alphabet, sequences <= 2-3, module constants snapshot, JIT on/off subprocess)'
-LEVEL_NOTE = 'builders / sklearn / matplotlib as uninterpreted functions of (source, arguments); the induction over the call history is the meta-argument; kwargs of plotting calls not part of the cache key contract'
+LEVEL_TEXT = 'history contracts proved for face_areas, face_jacobian, get_ball_tree, get_kd_tree, to_linecollection, to_polycollection: from every admissible cache state the call returns what a fresh grid returns for the same arguments and re-establishes the cache invariant; to_geodataframe proved the same way with the cache-miss value shown to be a function of exactly the cache key (2-safety over all pairs of paths); the lazy-property plumbing (_populate_* for connectivity and coordinates, node/face/edge lon-lat properties) proved to store only its own variables, computed from the tables of this grid, and to leave module constants and caller-owned buffers alone; all other operations: bounded operation-sequence sweep (93-operation alphabet, sequences <= 2-3, module constants snapshot, JIT on/off subprocess)'
+LEVEL_NOTE = 'builders / sklearn / matplotlib as uninterpreted functions of (source, arguments); the induction over the call history is the meta-argument; abstract (dataflow) mode for the plumbing: library calls / summarised builders are deterministic pure functions; Grid dimension sizes stable'
